@@ -9,7 +9,7 @@ ASSUME TLCSet(1, [t \in 1..Len(Traces) |-> 0])
 AnyCfg == [f |-> "any"]
 TraceInit == /\ tid \in 1..Len(Traces) /\ l = 1
              /\ pattern = [ i \in 1..NSlots |-> Traces[tid].pattern[i] ]
-             /\ k = 0 /\ since = Recover /\ status = "running"
+             /\ k = 0 /\ since = Recover /\ status = "running" /\ near = TRUE
 Ev == Traces[tid].events[l]
 (* the cfg-dependent part (which faults are visible) is logged with the trace: uses_acc/mag/gyr *)
 VisibleT(fk) == \/ (Traces[tid].uses_acc /\ Zeroes(fk, "acc")) \/ (Traces[tid].uses_mag /\ Zeroes(fk, "mag"))
@@ -20,7 +20,9 @@ TSlot == /\ l <= Len(Traces[tid].events) /\ l' = l + 1 /\ UNCHANGED tid
             /\ Ev.outcome \in (IF vis THEN {"Skipped", "Rejected", "Ok"} ELSE {"Ok"})
             /\ since' = IF vis THEN 0 ELSE since + 1
             /\ ((since' >= Recover /\ pattern[1] = "ok") => Ev.close)
+            /\ ((vis /\ near /\ pattern[1] = "ok" /\ Ev.outcome # "Rejected") => Ev.held)
             /\ status' = IF Ev.outcome = "Rejected" THEN "rejected" ELSE "running"
+         /\ near' = Ev.close
          /\ k' = k + 1 /\ UNCHANGED pattern
 TraceSpec == TraceInit /\ [][TSlot]_tvars
 Progress == LET f == TLCGet(1) IN IF f[tid] < l THEN TLCSet(1, [f EXCEPT ![tid] = l]) ELSE TRUE
